@@ -11,7 +11,8 @@ CONSTANTS
   MRSet = {2}
   MaxCuts = 6
   ClassSet = {"bnd"}
-  AnswerSet = {"terr", "ok", "5xx"}
+  AnswerSet = {"terr", "ok", "504"}
+  TailSet = {"good"}
   FixScanner = FALSE
   FixCursor = TRUE
   Fix5xx = TRUE
